@@ -193,7 +193,8 @@ func Median(list []value.Primary, flags *option.Flags) value.Primary {
 			continue
 		}
 		if d := value.ToDatetime(v, flags.DatetimeFormat, flags.GetTimeLocation()); !value.IsNull(d) {
-			values = append(values, float64(d.(*value.Datetime).Raw().UnixNano())/1e9)
+			t := d.(*value.Datetime).Raw()
+			values = append(values, float64(t.Unix())+float64(t.Nanosecond())/1e9)
 			continue
 		}
 	}
